@@ -134,7 +134,8 @@ fn small_fv(t: &ATerm) -> bool {
 }
 
 pub fn gen_history(rng: &mut Rng) -> (Vec<Op>, &'static str) {
-    let stream = match rng.below(19) {
+    let stream = match rng.below(21) {
+        19 | 20 => "migrate",
         16 => "collapse",
         17 | 18 => "shadow",
         15 => "latered",
@@ -169,9 +170,10 @@ pub fn gen_history(rng: &mut Rng) -> (Vec<Op>, &'static str) {
     if stream == "inherit" || stream == "symred" || stream == "deepsym" || stream == "upmerge" {
         return (gen_structured(rng, stream), stream);
     }
-    if stream == "tripledep" || stream == "collapse" || stream == "shadow" {
+    if stream == "tripledep" || stream == "collapse" || stream == "shadow" || stream == "migrate" {
         let raw = match stream {
             "tripledep" => gen_tripledep(rng),
+            "migrate" => gen_migrate(rng),
             "collapse" => gen_collapse(rng),
             _ => gen_shadow(rng),
         };
@@ -427,6 +429,48 @@ pub fn gen_collapse(rng: &mut Rng) -> Vec<Op> {
         ops.push(Op::Union(0, 1));
     }
     ops
+}
+
+/// a slot becomes redundant *later*, below a node that is not where it was created:
+/// (a) `h(f(x,y))` is merged into the bigger class of `g(x,y)` (the node migrates, its source class dies), then
+///     `f(x,y) = v(x)` — the class must lose exactly `y`;
+/// (b) `q(x) = k(q(z), p(x))` (a class equal to a term that contains it), then `p(x) = p(y)` — the self-referential
+///     node loses its last link to `x`, and so must the class
+pub fn gen_migrate(rng: &mut Rng) -> Vec<Op> {
+    let (x, y, z) = (4u32, 8u32, 12u32);
+    let op = if rng.chance(1, 2) { 14 } else { 4 };
+    if rng.chance(1, 2) {
+        let f = |a: u32, b: u32| leaf(7, &[a, b]);
+        let g = |a: u32, b: u32| leaf(11, &[a, b]);
+        let (p, q) = if rng.chance(1, 2) { (x, y) } else { (y, x) };
+        let mut ops = vec![Op::Add(un(13, f(x, y))), Op::Add(g(p, q))];
+        // usages decide which class is merged into which
+        let extra = rng.below(3);
+        for i in 0..extra {
+            ops.push(Op::Add(if i == 0 { un(13, g(p, q)) } else { bin(op, g(p, q), g(p, q)) }));
+        }
+        // (all insertions come first: the model side sizes its term universe from them)
+        let n = ops.len();
+        ops.push(Op::Add(f(x, y)));
+        ops.push(Op::Add(if rng.chance(1, 2) { leaf(10, &[x]) } else { leaf(10, &[y]) }));
+        ops.push(Op::Union(0, 1));
+        ops.push(Op::Union(n, n + 1));
+        ops
+    } else {
+        let a = |s: u32| leaf(2, &[s]);
+        let b = |s: u32| leaf(10, &[s]);
+        let node = if rng.chance(1, 2) { bin(op, b(z), a(x)) } else { bin(op, a(x), b(z)) };
+        let mut ops = vec![Op::Add(b(x)), Op::Add(node)];
+        if rng.chance(1, 2) {
+            ops.push(Op::Add(un(13, b(x))));
+        }
+        let n = ops.len();
+        ops.push(Op::Add(a(x)));
+        ops.push(Op::Add(a(y)));
+        ops.push(Op::Union(0, 1));
+        ops.push(Op::Union(n, n + 1));
+        ops
+    }
 }
 
 /// `on`: a child *before* a binder in the same node; the binder re-uses the name of a slot that is free in that child
